@@ -175,6 +175,9 @@ PostN(f, i, o) ==
            /\ \A b \in 0..(i.bits - 1), k \in 0..10 : LET lag == 2 ^ k  c == SeqBitAgree(i.draws, b, lag) IN
                   (N - lag >= 256) => 4 * c >= (N - lag) /\ 4 * c <= 3 * (N - lag)                               \* no short period in any bit (weak LC low bits)
            /\ (i.bits >= 4 => \A v \in 0..15 : LET c == SeqBucket(i.draws, i.bits - 4, ZFromInt(v)) IN 32 * c >= N /\ 8 * c <= N)   \* 16 value buckets within a factor 2
+        \* ---- C15: calls made by concurrently running threads are validated against the SEQUENTIAL semantics
+     [] f = "zcall" -> PostZ(i.fn, i.a, [k \in 1..Len(o.o) |-> [v |-> o.o[k], al |-> 0, sz |-> 0]], o.ret, "0")
+     [] f = "thr_rand" -> o.par = i.seq            \* a private generator reproduces its serial stream under every schedule
      [] f = "mpn_get_str" ->      \* digit values written through the 62-character alphabet by the harness; leading zeros permitted
            LET A62 == "0123456789ABCDEFGHIJKLMNOPQRSTUVWXYZabcdefghijklmnopqrstuvwxyz" IN
            /\ Len(o.s) = o.ret /\ o.ret >= 1
